@@ -66,6 +66,13 @@ Definition spec_normalise (rs : option (Z * Z)) : option (Z * Z) :=
 
 Definition spec_sign (d z k : Z) : option (Z * Z) := spec_normalise (ecdsa_sign d z k).
 
+(* a signature value together with its serialisation: strict DER followed by the hash-type byte *)
+Definition with_der (ht : Z) (rs : option (Z * Z)) : option (Z * Z * bytes) :=
+  match rs with
+  | Some (r, s) => Some (r, s, der_enc r s ++ [zb ht])
+  | None => None
+  end.
+
 (* ---------------------------------------------------------------- verification *)
 
 Definition in_range (v : Z) : bool := (1 <=? v) && (v <? secp_n).
